@@ -748,4 +748,28 @@ theorem collapse_strip (p ip : Plan) (cfg : Option InnerCfg) (same : Bool) (l : 
 
 end Strip
 
+
+/-! ## score mode -/
+
+theorem scoresComputed_true {S : Type} (r : Req S) : scoresComputed r = true := by
+  unfold scoresComputed
+  cases r.returnHits <;> simp
+
+theorem seen_eq_id {S : Type} (o : ScoreOps S) (r : Req S) : seen o r = id := by
+  funext h; simp [seen, scoresComputed_true]
+
+theorem map_seen {S : Type} (o : ScoreOps S) (r : Req S) (l : List (Hit S)) : l.map (seen o r) = l := by
+  rw [seen_eq_id, List.map_id]
+
+
+/-- the fetch depth exceeds the page size -/
+theorem limit_lt_topKOf {S : Type} (r : Req S) (hret : r.returnHits = true) (hlim : r.limit ≤ maxCandidate) :
+    r.limit < topKOf r := by
+  unfold topKOf
+  rw [if_pos hret]
+  have : r.limit ≤ min (max (max (r.cand.getD r.limit) r.limit) (windowOf r)) maxCandidate := by
+    apply Nat.le_min.mpr
+    exact ⟨Nat.le_trans (Nat.le_max_right _ _) (Nat.le_max_left _ _), hlim⟩
+  omega
+
 end SL.Post
